@@ -113,7 +113,7 @@ pub fn gen_squares(out: &mut Out, rng: &mut Rng, thorough: bool) {
         for style in 0..6usize { versions.push((v, style)); }
     }
     for v in 0..40usize {
-        for style in if thorough { vec![0usize, 1, 3, 5] } else { vec![[0usize, 5][v % 2]] } { versions.push((v, style)); }
+        for style in if thorough { vec![0usize, 1, 3, 5] } else { vec![0usize] } { versions.push((v, style)); }
     }
     for (k, (v, style)) in versions.into_iter().enumerate() {
         {
